@@ -4,6 +4,7 @@ import (
 	"context"
 	"errors"
 	"fmt"
+	"math"
 	"math/rand/v2"
 	"testing"
 	"time"
@@ -418,7 +419,10 @@ func TestC11(t *testing.T) {
 			limit = c.ParentTS + c.EmptyGap
 		}
 		c.FutureClass = "past"
-		switch rng.IntN(10) {
+		switch rng.IntN(11) {
+		case 10:
+			// negative timestamps, down to the most negative ones (a difference-based comparison would wrap)
+			c.TS = []int64{-1, -1000, math.MinInt64, math.MinInt64 + 1000, math.MinInt64 + c.ParentTS, math.MinInt64 + c.ParentTS + c.Gap - 1, -c.ParentTS}[rng.IntN(7)]
 		case 0:
 			c.TS = limit - 1
 		case 1:
@@ -440,8 +444,8 @@ func TestC11(t *testing.T) {
 		if c.FutureClass == "past" && c.TS > now-31_000 {
 			c.TS = now - 31_000 - int64(rng.IntN(1000))
 		}
-		if c.TS < 0 {
-			c.TS = 0
+		if c.TS < 0 && c.NTxs > 0 {
+			c.NTxs = 0 // the generator cannot draw expiries for negative block times; header checks come first anyway
 		}
 		c.RootOK = rng.IntN(6) != 0
 		var txs []*chain.Transaction
